@@ -51,7 +51,7 @@ def gen_cases(rng, tier):
             atoms.append(axes)
         cases.append({'m': m, 'rot': rng.random() < 0.3, 'rseed': rng.randrange(10**6), 'species': species, 'atoms': atoms, 'identical': identical,
                       'dim': rng.randint(1, 3), 'z': rng.randint(1, 3), 'temp': rng.choice([300.0, 650.0, 1000.5]), 'dt': rng.choice([1e-15, 2e-15]),
-                      'k': rng.choice([2, 3, 0.5, 1.5]), 's': rng.choice([2.0, 0.5, 4.0]),
+                      'k': rng.choice([2, 3, 0.5, 1.5, 2.0 ** -13, 2.0 ** -17]), 's': rng.choice([2.0, 0.5, 4.0]),
                       'plots': rng.random() < 0.15, 'as_disp': rng.random() < 0.2, 'base_off': [[rng.randint(-400, 400) for _ in range(3)] for _ in range(na)]})
         if identical:
             cases[-1]['base_off'] = [cases[-1]['base_off'][0]] * na          # identical motion includes the step from the base position
